@@ -14,6 +14,9 @@ Decided clauses:
   R16.4 (E11, influence within one iteration) the marker test of sodium_unpad depends on all 8 bits of the
         scanned byte: each bit can influence the verdict accumulator in its own iteration (a test of bit 7 alone
         accepts 0x81..0xff as the marker).
+  R16.5 (E11, per-iteration flows) sodium_unpad remembers what it scanned: a loop-carried value other than the verdict receives bit k
+        of every scanned byte in its bit k (an OR-accumulator) and each of its bits can influence the verdict of a later
+        iteration - the structural part of "the marker is followed only by zeros".
 NOT decided: position of the 0x80 marker, round-trip, the rest of the rejection set (value-level).
 """
 from .. import terms as T
@@ -205,3 +208,27 @@ def marker_rule(ctx, prog, chk):
            "(%%%s): the marker test is `byte == 0x80`, not a test of some of its bits" % insts[verdict[0]].get("name", "valid"), not blind,
            detail="bits %s of the byte do not reach it" % blind if blind else "", key="R16.4 sodium_unpad marker-byte")
     chk.floor("R16.4", "bits of the scanned byte analysed", 8, 8)
+    # ---- R16.5 the bytes scanned before the marker is found are remembered ----------------------------------------------------
+    # "not followed only by zeros" needs state: some loop-carried value other than the verdict must take every bit of every
+    # scanned byte (bit k of the byte reaches bit k of its next value: an OR-accumulator, not a predicate), and every bit of
+    # that value must in turn be able to influence the verdict of a later iteration.
+    acc = None
+    why5 = "no loop-carried value collects the scanned bytes"
+    for hp in hdr_phis:
+        if hp == verdict[0] or insts[hp]["ty"] not in ("i8", "i16", "i32", "i64"):
+            continue
+        nxt = [v[1] for v, _b in insts[hp]["inc"] if v[0] == "v" and blocks[insts[v[1]]["b"]].get("loopdepth", 0) >= 1]
+        if not nxt:
+            continue
+        takes = all(bf.analyse_value(f.name, L, bit, cut_phis=True)["masks"].get(nxt[0], 0) & (1 << bit) for bit in range(8))
+        if not takes:
+            continue
+        gates = all(bf.analyse_value(f.name, hp, bit, cut_phis=True)["masks"].get(verdict[1], 0) for bit in range(8))
+        if gates:
+            acc = hp
+            break
+        why5 = "%%%s collects the scanned bytes but some of its bits cannot influence the verdict" % insts[hp].get("name", hp)
+    chk.ob("R16.5", f, "a loop-carried accumulator takes every bit of every scanned byte and gates the marker test of later iterations "
+           "(bytes after the marker must all be zero)", acc is not None, detail="" if acc is not None else why5 +
+           ": a final block like 80 00 05 is accepted", key="R16.5 sodium_unpad zero-tail")
+    chk.floor("R16.5", "accumulator candidates examined", len(hdr_phis), 2)
